@@ -318,6 +318,20 @@ impl Client {
         }
     }
 
+    /// Process restart with another configuration (same database file content).
+    pub fn restart_with(&self, cfg: &Cfg) -> Client {
+        match &self.mdk {
+            Mdk::Mem(_) => self.fork(),
+            Mdk::Sql(_, file) => {
+                let path = scratch_file(&self.name);
+                std::fs::copy(&file.path, &path).expect("copy sqlite file");
+                let st = sqlite_open(&path);
+                let mdk = MDK::builder(st).with_config(cfg.to_mdk()).build();
+                Client { name: self.name.clone(), keys: self.keys.clone(), mdk: Mdk::Sql(mdk, std::sync::Arc::new(SqlStoreFile { path })), reopened: true }
+            }
+        }
+    }
+
     pub fn key_package_event(&self) -> Event {
         let (content, tags, _) = with_mdk!(self, m => m
             .create_key_package_for_event(&self.pk(), vec![relay("wss://kp.example")]))
